@@ -1,21 +1,37 @@
 #!/bin/bash
-# usage: run.sh <ID> <quick|thorough> [extra mc args]
-# Rebuilds the checker against /repo's CURRENT working tree (go.mod replace => /repo) and runs one check.
+# usage: run.sh <ID> <quick|thorough> [extra mc args]   |   run.sh replay <file>
+# Rebuilds the checker against /repo's CURRENT working tree (go.mod replace => /repo) and runs one check
+# (or replays one recorded violation). For C04 (and replays) the package-level state of /repo is audited
+# first (/verif/instr); if a package-level variable is written after init(), the checker is built with the
+# generated scheduling-point overlay (-overlay ... -tags verifhook) so that in-call preemptions are explored.
 set -u
 cd "$(dirname "$0")"
 export GOFLAGS=-mod=mod GOPROXY=off GOSUMDB=off GOTOOLCHAIN=local GOCACHE=/verif/.gocache
 ID="$1"; TIER="${2:-${VERIF_TIER:-quick}}"; shift; shift || true
 mkdir -p /verif/bin /verif/evidence /verif/replays
 BIN=/verif/bin/mc.$$
-( cd /verif/mc && cp -f /repo/go.sum go.sum 2>/dev/null; go build -o "$BIN" . ) || { echo "BUILD FAILED (harness or /repo does not compile)"; exit 2; }
+BUILDARGS=""
+if [ "$ID" = "C04" ] || [ "$ID" = "replay" ]; then
+  ( cd /verif/instr && go build -o /verif/bin/instr.$$ . ) || { echo "BUILD FAILED (instr)"; exit 2; }
+  /verif/bin/instr.$$ /repo /verif/.overlay > /verif/.overlay.log 2>&1 || { cat /verif/.overlay.log; echo "BUILD FAILED (package-state audit of /repo)"; rm -f /verif/bin/instr.$$; exit 2; }
+  rm -f /verif/bin/instr.$$
+  if ! grep -q '"Replace": {}' /verif/.overlay/overlay.json; then
+    BUILDARGS="-overlay /verif/.overlay/overlay.json -tags verifhook"
+  fi
+fi
+( cd /verif/mc && cp -f /repo/go.sum go.sum 2>/dev/null; go build $BUILDARGS -o "$BIN" . ) || { echo "BUILD FAILED (harness or /repo does not compile)"; exit 2; }
 RACE=""
-if [ "$ID" = "C04" ]; then
-  # free-running concurrency pass under the race detector (supplement to the exhaustive interleaving search)
+if [ "$ID" = "C04" ] || [ "$ID" = "replay" ]; then
+  # free-running concurrency pass under the race detector (supplement to the exhaustive interleaving searches)
   RACE=/verif/bin/race.$$
   ( cd /verif/race && cp -f /repo/go.sum go.sum 2>/dev/null; go build -race -o "$RACE" . ) || { echo "BUILD FAILED (race harness)"; rm -f "$BIN"; exit 2; }
   export VERIF_RACE_BIN="$RACE"
 fi
-"$BIN" check "$ID" --tier "$TIER" "$@"
+if [ "$ID" = "replay" ]; then
+  "$BIN" replay "$TIER" "$@"
+else
+  "$BIN" check "$ID" --tier "$TIER" "$@"
+fi
 rc=$?
 rm -f "$BIN" $RACE
 exit $rc
